@@ -164,6 +164,11 @@ Section Path.
     existsb (fun a => match_here a s) alts
     || match s with [] => false | _ :: s' => re_search alts s' end.
 
+  (* decidable sufficient condition for "the pattern fires on every string containing x":
+     some alternative is a single class containing x *)
+  Definition pat_rejects_char (pat : list alt) (x : A) : bool :=
+    existsb (fun a => match a with [c] => mem x c | _ => false end) pat.
+
   (* ---- _get_rails, per config id ---- *)
   Variable pat : list alt.                (* the reject pattern as read from the source *)
   Variable use_prefix_check : bool.       (* whether the commonprefix test is present *)
